@@ -1,4 +1,5 @@
 import GqlProofs.Schema.Hyps
+import GqlProofs.Schema.Complete
 /-
   C07 — a loaded schema is closed and consistent.  Property theorems about `Gql.Load.load`
   (the model of `validator.ValidateSchemaDocument` that the driver runs) and the predicates of
@@ -427,13 +428,15 @@ theorem C07_prelude_present {sd : SchemaDoc} {s : Schema} (h : load sd = .ok s) 
 /- ------------------------------------------------------------------ load vs WellFormed -/
 
 /-
-  Full statement (FALSE for the code as it is, in the ⇒ direction; `C07_load_sound` is that direction
-  under the hypothesis that excludes the remaining witness; the ⇐ direction is judged by exploration):
-    theorem C07_load_iff_wellformed (sd) : (load sd).isOk = true ↔ Spec.WellFormed sd
-  Remaining witness: R7b (a builtin directive redeclared more than once is accepted and the last
-  declaration wins, see C17_directive_perm_counterexample).  The former witnesses R7c (`enum E { __A }`)
-  and R7a (`f(a: String)` implementing `f(a: String!)`) are rejected since the repair: the two theorems
-  below replace the former `…_counterexample_enumValue` / `…_counterexample_argType`.
+  Both directions are theorems about the model (below):
+    ⇒  `C07_load_sound`     accepted ⇒ WellFormed, when no directive name is declared twice
+    ⇐  `C07_load_complete`  WellFormed ⇒ accepted, for every merged document (`MergedDoc`)
+    ⇔  `C07_load_iff_wellformed`  under the hypotheses of the ⇒ direction
+  The ⇒ direction cannot lose its hypothesis: R7b (a builtin directive redeclared more than once is
+  accepted and the last declaration wins, see `C07_load_iff_wellformed_counterexample_directive` and
+  C17_directive_perm_counterexample).  The former witnesses R7c (`enum E { __A }`) and R7a (`f(a: String)`
+  implementing `f(a: String!)`) are rejected since the repair: the two theorems below replace the former
+  `…_counterexample_enumValue` / `…_counterexample_argType`.
 -/
 
 /-- R7c repaired, kernel-checked: an enum value named `__A` is rejected (the spec clause rejects it too) -/
@@ -507,3 +510,89 @@ example : NamesLexical Examples.dirOkDoc ∧ DirectiveNamesDistinct Examples.dir
 
 /-- non-vacuity of the spec: the small valid document is well formed and loads -/
 example : Spec.WellFormed Examples.okDoc ∧ (load Examples.okDoc).isOk = true := ⟨by decide, by decide⟩
+
+/- ------------------------------------------------------------------ completeness: WellFormed ⇒ loads -/
+
+/-- **C07_load_complete — the ⇐ direction of "loads iff well formed"**: every merged document whose
+    merged type system satisfies the 26 clauses of `Spec.WellFormed` is accepted by the loader.
+    No clause is missing from the specification: each error site of validator/schema.go is excluded by
+    one clause (the lemmas `load_<step>_ok_of_wf` in GqlProofs/Schema/Complete*.lean name the Go check and
+    the clause).  `MergedDoc sd` says that `sd` has the SHAPE `parser.ParseSchemas(prelude, inputs…)`
+    produces — no extension is marked built in, the directive definitions of source 0 (the prelude) are among
+    the six names the loader lets a user redeclare and precede the user-written ones; it says nothing about
+    the type system, and none of its three parts can be dropped (`C07_load_complete_needs_*` below).
+    In particular a user may declare a prelude directive once more (`uniqueDirectiveNames` allows it, the
+    loader keeps the user's declaration): the document loads. -/
+theorem C07_load_complete (sd : SchemaDoc) (h : Spec.WellFormed sd) (hpre : MergedDoc sd) : ∃ s, load sd = .ok s :=
+  load_complete h hpre
+
+/-- the same for documents in which no directive name is declared twice (then the order of the sources
+    does not matter): the hypotheses are those of the soundness theorem -/
+theorem C07_load_complete_distinct (sd : SchemaDoc) (h : Spec.WellFormed sd)
+    (hext : ∀ e ∈ sd.extensions, e.builtIn = false) (hd : DirectiveNamesDistinct sd) : ∃ s, load sd = .ok s :=
+  load_complete_distinct h hext hd
+
+/-- the stage lemmas, re-exported: the four maps are built … -/
+theorem C07_load_complete_buildState (sd : SchemaDoc) (h : Spec.WellFormed sd) (hpre : MergedDoc sd) :
+    ∃ st, buildState sd = .ok st :=
+  load_buildState_ok_of_wf h hpre
+
+/-- … and in that state the directive definition in force according to the specification (the user's,
+    else the prelude's) is the one the loader stored, every type definition and every directive definition
+    passes its validator -/
+theorem C07_load_complete_validators (sd : SchemaDoc) (h : Spec.WellFormed sd) (hpre : MergedDoc sd) {st : LState}
+    (hb : buildState sd = .ok st) :
+    (∀ n, (Spec.TypeSystem.ofDoc sd).directive? n = st.directives.lookup n) ∧
+    validateTypeDefinitions st = .pass ∧ validateDirectiveDefinitions st = .pass := by
+  have hdir := fun n => spec_directive_eq_of_merged hb h.uniqueDirectiveNames hpre n
+  have W : WfState sd st := ⟨h, hpre.extNotBuiltin, hb, hdir⟩
+  exact ⟨hdir, load_validateTypeDefinitions_ok_of_wf W, load_validateDirectiveDefinitions_ok_of_wf W⟩
+
+/-- **C07_load_iff_wellformed**: for documents in which no directive name is declared twice (and with
+    the two guarantees of the prelude and of the lexer that soundness needs) the loader accepts EXACTLY
+    the well-formed type systems. -/
+theorem C07_load_iff_wellformed (sd : SchemaDoc) (hext : ∀ e ∈ sd.extensions, e.builtIn = false)
+    (hlex : NamesLexical sd) (hd : DirectiveNamesDistinct sd) : (load sd).isOk = true ↔ Spec.WellFormed sd := by
+  rw [isOk_iff]
+  exact ⟨fun ⟨_, h⟩ => load_wellFormed h hext hlex hd, fun h => load_complete_distinct h hext hd⟩
+
+/-- for every merged document: loading fails only if some clause fails (the contrapositive the harness
+    observes as "go-rejects-spec-accepts" never happening) -/
+theorem C07_load_rejects_only_illformed (sd : SchemaDoc) (hpre : MergedDoc sd) (h : (load sd).isOk = false) :
+    Spec.wfB sd = false := by
+  cases hw : Spec.wfB sd with
+  | false => rfl
+  | true =>
+    obtain ⟨s, hs⟩ := load_complete ((Spec.wfB_iff sd).mp hw) hpre
+    rw [hs] at h
+    cases h
+
+/-- non-vacuity: the example documents are merged documents; `redeclOkDoc` redeclares the prelude's
+    `@skip` (so it is outside `DirectiveNamesDistinct`), is well formed and loads -/
+example : MergedDoc Examples.okDoc ∧ MergedDoc Examples.implOkDoc ∧ MergedDoc Examples.dirOkDoc ∧
+    Spec.WellFormed Examples.implOkDoc ∧ Spec.WellFormed Examples.dirOkDoc ∧
+    MergedDoc Examples.redeclOkDoc ∧ Spec.WellFormed Examples.redeclOkDoc ∧ ¬ DirectiveNamesDistinct Examples.redeclOkDoc ∧
+    (load Examples.redeclOkDoc).isOk = true := by
+  refine ⟨by decide, by decide, by decide, by decide, by decide, by decide, by decide, by decide, by decide⟩
+
+/-- `MergedDoc.preludeFirst` cannot be dropped: with the user's `directive @skip on OBJECT` placed
+    BEFORE the prelude's `directive @skip on FIELD` the document is well formed (the specification reads the
+    user's declaration) and is rejected (the loader keeps the last one) -/
+theorem C07_load_complete_needs_preludeFirst :
+    Spec.WellFormed Examples.redeclUserFirstDoc ∧ (load Examples.redeclUserFirstDoc).isOk = false ∧
+    ¬ MergedDoc Examples.redeclUserFirstDoc := by
+  refine ⟨by decide, by decide, by decide⟩
+
+/-- `MergedDoc.preludeDirsBuiltin` cannot be dropped: a source-0 directive outside the loader's list of
+    six, declared once more by the user ("Cannot redeclare directive foo.") -/
+theorem C07_load_complete_needs_preludeDirsBuiltin :
+    Spec.WellFormed Examples.redeclFooDoc ∧ (load Examples.redeclFooDoc).isOk = false ∧
+    ¬ MergedDoc Examples.redeclFooDoc := by
+  refine ⟨by decide, by decide, by decide⟩
+
+/-- `MergedDoc.extNotBuiltin` cannot be dropped: `extend scalar __X` marked built in, without a base
+    definition (the loader's stub is never built in, so the reserved name is rejected) -/
+theorem C07_load_complete_needs_extNotBuiltin :
+    Spec.WellFormed Examples.builtinExtDoc ∧ (load Examples.builtinExtDoc).isOk = false ∧
+    ¬ MergedDoc Examples.builtinExtDoc := by
+  refine ⟨by decide, by decide, by decide⟩
